@@ -228,6 +228,9 @@ def B(root, mode="real", **kw):
 
 def roots_of(shape):
     deps = {d for t in shape["targets"].values() for d in t["deps"]}
+    # the generator of a consumed source is a dependency of the consumer as well
+    used = {s for t in shape["targets"].values() for s in t["srcs"]}
+    deps |= {n for n, t in shape["targets"].items() if set(t["gens"]) & used}
     return sorted(n for n in shape["targets"] if n not in deps)
 
 
@@ -286,6 +289,9 @@ def harness_cases(tier, sd):
         add("gc", name, [B(top), B(top, gc=True, index=True), es, B(top), B(top)], twin="gc")
         add("fail", name, [B(top), es, B(top, fail=[inner[0]]), B(top), B(top)])
         add("fail", name, [B(top, fail=[inner[0]]), B(inner[0]), B(top)])
+        # a failure, then the failed target alone succeeds, then everything: its dependents must notice
+        add("fail", name, [B(top), es, B(top, fail=[inner[0]]), B(inner[0]), B(top), B(top)])
+        add("fail", name, [B(top), es, B(top, fail=[inner[0]]), es, B(inner[0]), B(top), B(top)])
         if name in RESHAPE:
             add("gc", name, [B(top), {"op": "reshape"}, B(roots_of(RESHAPE[name])[0], gc=True), B(roots_of(RESHAPE[name])[0])])
         for g in gens:
@@ -307,6 +313,8 @@ def harness_cases(tier, sd):
             add("sess", name, [B(top), B(top), es, B(inner[0], reuse=True), B(top, reuse=True)])
             add("sess", name, [B(top), B(top), es, B(top, reuse=True, fail=[inner[0]]), B(top, reuse=True), B(top, reuse=True)])
             add("sess", name, [B(top), es, B(inner[0], reuse=True), B(top, reuse=True)])
+            # several partial runs in one session, then a fresh process
+            add("sess", name, [B(inner[0]), B(top, reuse=True), es, B(inner[0], reuse=True), B(top), B(top)])
             if others:
                 add("sess", name, [B(top), B(top), es, B(others[-1], reuse=True), B(top, reuse=True), es, B(top, reuse=True)])
     # watch mode: the project grows, is reloaded in place and built; a later index-preferring
